@@ -46,7 +46,7 @@ class Ob:
         self.weight = kw.pop("weight", 1.0)        # scheduling hint (bigger first)
         self.functions = list(kw.pop("functions", ()))  # library functions that must be seen executing
         self.validate = kw.pop("validate", True)   # per-path concrete cross-validation
-        self.module = fn.__module__
+        self.module = kw.pop("module", None) or fn.__module__
         assert not kw, kw
 
     def instances(self, tier):
@@ -123,7 +123,10 @@ class ConcreteEx:
     def refuse(self, tag, **claims):
         return Refused(tag, claims)
 
-    def abstract_wide_arith(self, bits):
+    def abstract_wide_arith(self, bits, div_bits="same"):
+        pass
+
+    def prefer_int(self, on=True):
         pass
 
     # stubs
@@ -211,9 +214,14 @@ def _install_explorer_api():
     def uf(self, name, outlen, injective=False):
         return UF(name, outlen, injective)
 
-    def abstract_wide_arith(self, bits):
+    def abstract_wide_arith(self, bits, div_bits="same"):
         core.ABSTRACT_BITS = bits
+        core.ABSTRACT_DIV_BITS = bits if div_bits == "same" else div_bits
 
+    def prefer_int(self, on=True):
+        core.INT_FIRST = on
+
+    E.prefer_int = prefer_int
     E.abstract_wide_arith = abstract_wide_arith
     E.bool, E.bytes, E.bytearray, E.str = bool_, bytes_, bytearray_, str_
     E.assume, E.concretize, E.refuse, E.stub, E.uf = assume, concretize_, refuse, stub, uf
